@@ -3,7 +3,7 @@
 M1: RoundingLemmas (the oracle's checker and functional forms agree on a small universe).
 M3: real-size events through four entry levels (libmp function, operator, f-function with
     prec/rounding/exact keywords, constructor), each judged by TLC with MpfPost on limbs."""
-from .. import core, gen, cases, arith
+from .. import machine, core, gen, cases, arith
 from . import common
 
 PROP = "C02"; LEVEL = "model_checking"
@@ -11,8 +11,10 @@ PROP = "C02"; LEVEL = "model_checking"
 
 def main():
     chk = core.Check(PROP, LEVEL)
-    runner = cases.Runner(core.use_repo())
+    mp = core.use_repo()
+    runner = cases.Runner(mp)
     common.run_models(chk, [("RoundingLemmas", "RoundingLemmas_quick.cfg", "RoundingLemmas_thorough.cfg")])
+    machine.run(chk, mp)
     g = gen.G(chk.seed * 1000003 + 2)
     cs = arith.group_c02(g, chk.pick(5000, 120000))
     common.judge_cases(chk, cs, runner, "post", "correct rounding violated")
